@@ -936,6 +936,14 @@ def execute_all(pool, rng: random.Random, tier: str, n: int):
             kb = rand_knobs(rng, 1000)
             kb.update(threshold=100, only="big-count", request={})
             batch.append((Rb, kb))
+            # ... and one whose *content* is what the small grids never have: corner-to-corner routes through a 32x32 maze are
+            # practically always longer than 127 cells (often longer than 255), stored in the minimal format (threshold knob 1). What the cache returns on a hit
+            # and leaves behind after a regeneration is compared with a fresh generation as for every other configuration;
+            # only a handful of scenarios are run for it (a miss, two damaged files, two warm histories)
+            Rl = {"name": "long", "grid_n": 32, "n_mazes": 4, "maze_ctor": "gen_dfs", "maze_ctor_kwargs": {}, "endpoint_kwargs": {"allowed_start": [[0, 0]], "allowed_end": [[31, 31]]}, "seed": rng.randrange(1000), "applied_filters": []}
+            kl = rand_knobs(rng, 4)
+            kl.update(threshold=rng.choice([1, 4]), only="long-solutions", request={})
+            batch.append((Rl, kl))
         K = len(pool.hashseeds)
         res = pool.run([{"prop": PROP, "tier": tier, "timeout": JOB_TIMEOUT, "slot": (len(cfgs) + j) % K, "spec": {"probe": {"cfg": R, "knobs": k}}} for j, (R, k) in enumerate(batch)])
         cfgs += batch
@@ -952,6 +960,18 @@ def execute_all(pool, rng: random.Random, tier: str, n: int):
         if k.get("only") == "big-count":
             for sp in (False, True):
                 specs.append({"cfg": R, "knobs": k, "slot": slot, "scenarios": [{"kind": "shared-dir", "field": "n_mazes-same-abbreviation", "cfg": dict(R, n_mazes=1024), "same_process": sp}]})
+            continue
+        if k.get("only") == "long-solutions":
+            size = r["layout"]["size"]
+            for sc in (
+                {"kind": "missing"},
+                {"kind": "empty"},
+                {"kind": "trunc", "at": size // 2},
+                {"kind": "trunc", "at": size - 1},
+                {"kind": "history", "steps": [["request", None], ["request-warm", None]]},
+                {"kind": "history", "steps": [["damage", {"kind": "delete"}], ["request", None], ["request", None]]},
+            ):
+                specs.append({"cfg": R, "knobs": k, "slot": slot, "scenarios": [sc]})
             continue
         for sc in scenarios_for(rng, R, r["layout"], tier):
             specs.append({"cfg": R, "knobs": k, "slot": slot, "scenarios": [sc]})
